@@ -783,13 +783,15 @@ theorem scoped_callsList (c : Cfg) : ∀ es : List PExpr, ScopedArgs c es = true
     · exact scoped_callsList c as h.2 f hf
 end
 
-/-- a row that is the namesake of `f`, declared `double`, and not one of the two C++ functions
-whose result type is not `double` -/
+/-- a row that is the namesake of `f` and whose declared type is the C++ result type whatever the
+argument types are: `double` for every function but `std::abs` (overloaded on integers) and
+`std::ilogb`; `int` for `std::ilogb` -/
 def plainRow (c : Cfg) (f : String) : Bool :=
   match findKnown c.table c.env f with
   | .ok (some r) =>
-    (meaningPy f).isSome && meaningCpp r.cpp == meaningPy f && r.ret == "double" &&
-      r.cpp != "std::abs" && r.cpp != "std::ilogb" && byValue f
+    (meaningPy f).isSome && meaningCpp r.cpp == meaningPy f &&
+      ((r.ret == "double" && r.cpp != "std::abs" && r.cpp != "std::ilogb") ||
+       (r.ret == "int" && r.cpp == "std::ilogb")) && byValue f
   | _ => false
 
 theorem callOk_of_plainRow {c : Cfg} {f : String} (h : plainRow c f = true) (tys : List CT) :
@@ -802,9 +804,11 @@ theorem callOk_of_plainRow {c : Cfg} {f : String} (h : plainRow c f = true) (tys
     cases o with
     | none => simp [hk] at h
     | some r =>
-      simp only [hk, Bool.and_eq_true, beq_iff_eq, bne_iff_ne, ne_eq] at h
-      obtain ⟨⟨⟨⟨⟨h1, h2⟩, h3⟩, h4⟩, h5⟩, h6⟩ := h
-      simp [h1, h2, h3, cppRet, h4, h5, h6, CT.ofName]
-
+      simp only [hk, Bool.and_eq_true, Bool.or_eq_true, beq_iff_eq, bne_iff_ne, ne_eq] at h
+      obtain ⟨⟨⟨h1, h2⟩, h3⟩, h6⟩ := h
+      rcases h3 with ⟨⟨h3, h4⟩, h5⟩ | ⟨h3, h4⟩
+      · simp [h1, h2, h3, cppRet, h4, h5, h6, CT.ofName]
+      · have h2' : meaningCpp "std::ilogb" = meaningPy f := h4 ▸ h2
+        simp [h1, h2', h3, cppRet, h4, h6, CT.ofName]
 
 end FaxVerif.C12
